@@ -46,3 +46,11 @@ pub use regexp::*;
 pub use set::*;
 pub use string::*;
 pub use symbol::*;
+
+/// The argument at `index` if the caller passed one that is not `undefined`:
+/// for optional parameters ECMAScript treats an explicit `undefined` like a
+/// missing argument ("if end is undefined, let relativeEnd be len").
+pub(crate) fn given(args: &[crate::value::JsValue], index: usize) -> Option<&crate::value::JsValue> {
+    args.get(index)
+        .filter(|v| !matches!(v, crate::value::JsValue::Undefined))
+}
